@@ -231,3 +231,26 @@ Proof.
     pose proof (res_fold_cf f (length g) _ _ _ _ _ Hdim (shape_zero _) Hnd Hlt H e He) as Hc.
     rewrite Et in Hc. exact Hc.
 Qed.
+
+(* adjacency of the residual graph needs only that the graph's edges stay in range *)
+Theorem residual_network_adj : forall g f rg cf,
+  (forall u v, In v (adj g u) -> v < length g) -> residual_network g f = (rg, cf) ->
+  length rg = length g /\ (forall x y, In y (adj rg x) <-> residual_edge g f x y).
+Proof.
+  intros g f rg cf Hr H. unfold residual_network in H. rewrite residual_rows_fold in H.
+  assert (Hdim : in_dim (length g) (edges_from 0 g)).
+  { intros [u v] He. apply in_edges_graph in He. cbn [fst snd]. split; [|apply (Hr u v He)].
+    destruct (Nat.lt_ge_cases u (length g)) as [Hu|Hu]; [exact Hu|].
+    unfold adj in He. rewrite nth_overflow in He by exact Hu. destruct He. }
+  destruct (res_fold_adj f (length g) _ _ _ _ _ Hdim (repeat_length _ _) H) as [HL HA].
+  split; [exact HL|]. intros x y. rewrite HA, adj_repeat_nil. unfold residual_edge. cbn [In]. split.
+  - intros [[]|[[u v] [He Et]]]. apply in_edges_graph in He. unfold target in Et. cbn [fst snd] in Et.
+    destruct (Z.eqb (mget f u v) 1) eqn:Ef; inversion Et; subst.
+    + right. split; [exact He | apply Z.eqb_eq; exact Ef].
+    + left. split; [exact He | apply Z.eqb_neq; exact Ef].
+  - intros [[He Hf]|[He Hf]]; right.
+    + exists (x, y). split; [apply in_edges_graph; exact He|]. unfold target. cbn [fst snd].
+      apply Z.eqb_neq in Hf. rewrite Hf. reflexivity.
+    + exists (y, x). split; [apply in_edges_graph; exact He|]. unfold target. cbn [fst snd].
+      apply Z.eqb_eq in Hf. rewrite Hf. reflexivity.
+Qed.
